@@ -300,6 +300,9 @@ package podgroup_info
 //@ end
 
 // ---- priority-queue consumers (scheduler_util.PriorityQueue: counts and membership only, order external) ----------
+// placeholder used only to name the family of interface{} slice cells in `modifies`: the assumed Push/Pop contracts
+// have `modifies q.queue.items[*]`, which for a slice means every cell of that element type
+//@ declare anyQueue() *scheduler_util.PriorityQueue
 //@ define allTasks(q *scheduler_util.PriorityQueue) bool = forall i int :: 0 <= i && i < len(q.queue.items) ==> typeis(q.queue.items[i], "*pod_info.PodInfo")
 //@ define allPodSets(q *scheduler_util.PriorityQueue) bool = forall i int :: 0 <= i && i < len(q.queue.items) ==> typeis(q.queue.items[i], "*sgi.PodSet") && unbox(q.queue.items[i], "*sgi.PodSet") != nil
 
@@ -337,6 +340,7 @@ package podgroup_info
 //@   props C03
 //@   requires tasksOK(subGroup)
 //@   fresh
+//@   modifies anyQueue().queue.items[*]
 //@   loop 1
 //@     invariant priorityQueue != nil && fresh(priorityQueue) && allTasks(priorityQueue) && priorityQueue.maxQueueSize == scheduler_util.QueueCapacityInfinite
 //@     invariant forall i int :: 0 <= i && i < len(priorityQueue.queue.items) ==> wantsAlloc(unbox(priorityQueue.queue.items[i], "*pod_info.PodInfo"), isRealAllocation)
@@ -351,6 +355,7 @@ package podgroup_info
 //@   props C03
 //@   requires tasksOK(subGroup)
 //@   fresh
+//@   modifies anyQueue().queue.items[*]
 //@   loop 1
 //@     invariant podPriorityQueue != nil && fresh(podPriorityQueue) && allTasks(podPriorityQueue) && podPriorityQueue.maxQueueSize == scheduler_util.QueueCapacityInfinite
 //@     invariant forall i int :: 0 <= i && i < len(podPriorityQueue.queue.items) ==> pod_status.inActiveAllocated(unbox(podPriorityQueue.queue.items[i], "*pod_info.PodInfo").Status)
@@ -363,11 +368,12 @@ package podgroup_info
 //@   props C03
 //@   requires forall k in subGroups :: subGroups[k] != nil
 //@   fresh
+//@   modifies anyQueue().queue.items[*]
 //@   loop 1
 //@     invariant priorityQueue != nil && fresh(priorityQueue) && allPodSets(priorityQueue) && priorityQueue.maxQueueSize == scheduler_util.QueueCapacityInfinite
 //@     invariant forall i int :: 0 <= i && i < len(priorityQueue.queue.items) ==> (exists k in subGroups :: subGroups[k] == unbox(priorityQueue.queue.items[i], "*sgi.PodSet"))
 //@     invariant len(priorityQueue.queue.items) > 0 <==> (exists k in visited :: k in subGroups)
 //@   ensures result != nil && allPodSets(result)
 //@   ensures [members] forall i int :: 0 <= i && i < len(result.queue.items) ==> (exists k in subGroups :: subGroups[k] == unbox(result.queue.items[i], "*sgi.PodSet"))
-//@   ensures [nonEmpty] len(result.queue.items) > 0 <==> len(subGroups) > 0
+//@   ensures [nonEmpty] len(result.queue.items) > 0 <==> (exists k in subGroups :: true)
 //@ end
